@@ -26,6 +26,7 @@ func c14(c *core.Ctx) {
 	c14Extras(c)
 	c14NoInvention(c)
 	c14Consume(c)
+	c14Narrow(c)
 
 	c.NotDecidedf("round-trip equality (decode(encode(x)) == x) and byte canonicity (encode(decode(b)) == b) as value properties; only the structural agreement of the two sides is decided")
 	c.NotDecidedf("the base26 textual address form and its checksum; hexutil/JSON codecs beyond field-set agreement of txdata (value formats, Big10 signs, required-field handling)")
